@@ -21,7 +21,8 @@ from .refmodel import (LD, TrajModel, quat_to_rot, rot_to_quat, is_rotation,
 MUTATORS = ("transform", "scale", "reduce_to_ids", "downsample",
             "motion_filter", "time_range", "align", "align_origin", "project")
 DERIVERS = ("deepcopy", "associate", "split_time", "split_dist", "split_speed",
-            "merge", "df_roundtrip", "tum_roundtrip", "kitti_roundtrip")
+            "merge", "df_roundtrip", "tum_roundtrip", "kitti_roundtrip",
+            "rewrap")
 OBSERVERS = ("read", "compute")
 
 MAY_REFUSE = {
@@ -171,7 +172,15 @@ def execute_step(m: Machine, step, prop_of):
             elif cs[2] and not cs[0]:
                 m.probe_hit("op_after_only_se3_cached")
             if mode == "left":
-                e.obj.transform(Tm)
+                if step.get("propagate_flag"):
+                    # "propagate: whether to propagate drift with RHS
+                    # transformations": without right_mul the flag has no
+                    # meaning (evo_traj --transform_left --propagate_transform
+                    # passes it all the same)
+                    e.obj.transform(Tm, right_mul=False, propagate=True)
+                    m.probe_hit("transform_left_with_propagate_flag")
+                else:
+                    e.obj.transform(Tm)
                 e.model.left(Rt, tt)
             elif mode == "right":
                 if step.get("positional"):
@@ -402,6 +411,24 @@ def execute_step(m: Machine, step, prop_of):
             mm = TrajModel(R, p, allt[order])
             mm.beta = max(x.model.beta for x in ents) + 4e-16
             new.append(add_entry(m, step["uid"] + ".0", o, mm, "merge"))
+        elif op == "rewrap":
+            # a second object built from the first one's pose list, the way
+            # contrib/kitti_poses_and_timestamps_to_trajectory.py turns a path
+            # into a trajectory: PoseTrajectory3D(poses_se3=path.poses_se3, ..)
+            if e.model.n == 0:
+                return None
+            poses = e.obj.poses_se3
+            mm = e.model.copy()
+            if step.get("stamped"):
+                ts = (np.array(e.model.t, dtype=float) if e.model.t is not None
+                      else np.arange(e.model.n, dtype=float) * 0.1)
+                o = T.PoseTrajectory3D(poses_se3=poses, timestamps=ts)
+                mm.t = ts.copy()
+            else:
+                o = T.PosePath3D(poses_se3=poses)
+                mm.t = None
+            new.append(add_entry(m, step["uid"] + ".0", o, mm, "rewrap"))
+            m.probe_hit("second_object_from_same_pose_list")
         elif op == "df_roundtrip":
             df = evo.pandas_bridge.trajectory_to_df(e.obj)
             df0 = df.copy(deep=True)
@@ -1087,7 +1114,8 @@ def gen_step(m: Machine, rng, uid):
             if not budget_ok and mode != "prop":
                 return None
             return {"op": op, "uid": uid, "obj": e.uid, "mode": mode,
-                    "T": gen_T(rng, scale), "positional": rng.random() < 0.3}
+                    "T": gen_T(rng, scale), "positional": rng.random() < 0.3,
+                    "propagate_flag": mode == "left" and rng.random() < 0.25}
         if op == "scale":
             s = rng.choice([0.5, 2.0, 0.1, 10.0, 1.0, 1.5, 0.999, 3.25])
             if not (1e-3 <= e.model.scale_acc * s <= 1e3):
@@ -1207,6 +1235,9 @@ def gen_step(m: Machine, rng, uid):
                     "objs": [x.uid for x in rng.sample(st, k)]}
         if op in ("tum_roundtrip", ) and not e.stamped:
             op = "kitti_roundtrip"
+        if op == "rewrap":
+            return {"op": op, "uid": uid, "obj": e.uid,
+                    "stamped": rng.random() < 0.6}
         return {"op": op, "uid": uid, "obj": e.uid}
     r -= mix[1]
     if r < mix[2] or r < 0:
